@@ -210,4 +210,26 @@ theorem aget_mapVal (m : List (κ × α)) (f : κ → α → α) (x : κ) :
     · subst hk; simp
     · simp [hk]
 
+theorem aset_same (m : List (κ × α)) (x : κ) (v : α) (h : aget m x = some v) : aset m x v = m := by
+  induction m with
+  | nil => simp at h
+  | cons p r ih =>
+    obtain ⟨k, w⟩ := p
+    rw [aget_cons] at h
+    unfold aset
+    by_cases hk : k = x
+    · simp only [hk, ↓reduceIte, Option.some.injEq] at h ⊢
+      subst h; subst hk; rfl
+    · simp only [hk, ↓reduceIte] at h ⊢
+      rw [ih h]
+
+theorem aset_aset (m : List (κ × α)) (x : κ) (v w : α) : aset (aset m x v) x w = aset m x w := by
+  induction m with
+  | nil => simp [aset]
+  | cons p r ih =>
+    obtain ⟨k, u⟩ := p
+    by_cases hk : k = x
+    · simp [aset, hk]
+    · simp [aset, hk, ih]
+
 end C10
